@@ -10,11 +10,9 @@ use crate::report::{guarded, hex, par_slices, Report};
 use crate::Outcome;
 use huginn_net_db::Database;
 use serde_json::{json, Value};
-use std::sync::OnceLock;
 
 pub fn db() -> &'static Database {
-    static DB: OnceLock<Database> = OnceLock::new();
-    DB.get_or_init(|| Database::load_default().expect("bundled database loads"))
+    crate::drv::db()
 }
 fn link_label(mtu: u16) -> Option<String> {
     db().mtu.iter().find(|(_, v)| v.contains(&mtu)).map(|(l, _)| l.clone())
